@@ -22,6 +22,7 @@ import json
 import multiprocessing as mp
 import os
 import random
+import re
 from typing import Any, Dict, List, Optional, Tuple
 
 from ..core import Ctx, MachineryError
@@ -78,9 +79,23 @@ LONG_LAMBDA = ("lambda aaaaaaaaaaaaaaaaaaaa, bbbbbbbbbbbbbbbbbbbbbbbbbbbbb, cccc
 LONG_COMP = ("[xxxxxxxxxxxxxxxxxxxxxxxxx for xxxxxxxxxxxxxxxxxxxxxxxxx in yyyyyyyyyyyyyyyyyyyyyyyyyyyyyyyyyyyyyyyyy "
              "if zzzzzzzzzzzzzzzzzzzzzzzzzzzzzzzzzzzzzzzz]")
 KF_DEFAULTS = ['"x\\u00a0y"', '"x\\ufffey"']
+# open findings whose deviation is a specific wrong text: finding -> [(kind, written, shown, what is displayed meanwhile)]
+KF_TABLE: Dict[str, List[Tuple[str, str, str, str]]] = {
+    "regex-set-hyphen-unescaped": [("default", "re.compile(r'[a\\-z]')", "re.compile(r'[a\\-z]')", "re.compile(r'[a-z]')"),
+                                   ("default", "re.compile(r'[+\\-*/]+')", "re.compile(r'[+\\-*/]+')", "re.compile(r'[\\+-\\*/]+')")],
+    "regex-scoped-flags-dropped": [("default", "re.compile(r'(?i:a)b')", "re.compile(r'(?i:a)b')", "re.compile(r'(?:a)b')")],
+    "regex-verbose-space-unescaped": [("default", "re.compile(r'[ ]x', re.X)", "re.compile(r'[ ]x', re.X)", "re.compile(r' x', re.X)")],
+    "annotated-metadata-unquoted": [("ann", 'typing.Annotated[int, "doc"]', "typing.Annotated[int, 'doc']", "typing.Annotated[int, doc]")],
+    "literal-alias-unstringed": [("ann", 'Lit["a"]', "Lit['a']", "Lit[a]")],
+}
 # since /repo 5ae424f, f58c8a9, f1922c5: overflowing floats, values longer than astor's line width and string OPERANDS of
 # annotations are ordinary pool entries
 DEF_POOL += ["1e999", "-1e999", LONG_LAMBDA, LONG_COMP]
+# starred operands in displays and calls keep their parentheses; regular expressions are shown as the same expression
+DEF_POOL += ["[*(EXTRA or ()), 'x']", "(*(a if b else c), 1)", "[*(not a), b]", "f(*(a or b))", "[*a, *b]",
+             "{**(a or b), 'k': 1}", "f(**(a or b))",
+             "re.compile(r'[\\^~!]+')", "re.compile(r'\\d+(?:\\.\\d+)?')", "re.compile(r'[\\]\\\\]x')", "re.compile('a|b*')",
+             "re.compile(r'[.*]')", "re.compile(r\"it's\")", "re.compile(r'[\\^]', re.I)", "re.compile(r'[~\\^]x|\\^y')"]
 # a PARAMETER annotated with the literal None keeps its annotation (only `-> None` is omitted)
 ANN_POOL += [("None", "None"), ("None", "None"), ('"None"', "None"), ("Optional[None]", "Optional[None]"), ('Tuple["None", int]', "Tuple[None, int]")]
 ANN_POOL += [('"A | B" & C', "(A | B) & C"), ('C & "A | B"', "C & (A | B)"), ('-"a + b"', "-(a + b)")]
@@ -117,10 +132,15 @@ def exprs_for(rec: Dict[str, Any], rng: Optional[random.Random], lit: str = "Lit
                 ann[i] = rng.choice([x for x in ANN_POOL if '"' not in x[0] and not x[0].startswith("'")])
             elif a == "string":
                 ann[i] = rng.choice([x for x in ANN_POOL if x[0] != x[1]])
+                kfa = [e for t in KF_TABLE.values() for e in t if e[0] == "ann"]
+                if kfa and rng.random() < 0.04:
+                    ann[i] = rng.choice(kfa)[1:3]
             if has_def:
                 u = rng.random()
                 if u < 0.02:
                     dflt[i] = rng.choice(KF_DEFAULTS)
+                elif u < 0.05 and [e for t in KF_TABLE.values() for e in t if e[0] == "default"]:
+                    dflt[i] = rng.choice([e for t in KF_TABLE.values() for e in t if e[0] == "default"])[1]
                 elif u < 0.3:
                     # a name that collides: preferably an annotated parameter of this very function
                     annotated = [j for j, p in enumerate(rec["params"], 1) if p[2] != "none"] or list(range(1, len(rec["params"]) + 1))
@@ -163,11 +183,33 @@ def write_def(name: str, rec: Dict[str, Any], ex: Dict[str, Any], deco: str = ""
     return f"{deco}def {name}({', '.join(parts)}){r}: {body}"
 
 
+class _RegexNorm(ast.NodeTransformer):
+    """`re.compile(<string>, ...)`: two pattern strings are the same default when they are the same regular expression
+    (the pattern is shown re-written from its parse tree): the string is replaced by its parse tree."""
+    def visit_Call(self, node: ast.Call) -> ast.AST:
+        self.generic_visit(node)
+        f = node.func
+        if (isinstance(f, ast.Attribute) and f.attr == "compile" and isinstance(f.value, ast.Name) and f.value.id == "re"
+                and node.args and isinstance(node.args[0], ast.Constant) and isinstance(node.args[0].value, str)):
+            verbose = any("X" in ast.dump(a) or "VERBOSE" in ast.dump(a) for a in node.args[1:])
+            try:
+                import re._parser as sre_parse          # Python >= 3.11
+                tree = str(sre_parse.parse(node.args[0].value, re.VERBOSE if verbose else 0))
+            except Exception:
+                return node
+            node.args[0] = ast.Constant(value="<regex> " + tree)
+        return node
+
+
+def adump(node: ast.AST) -> str:
+    return ast.dump(_RegexNorm().visit(node))
+
+
 @functools.lru_cache(maxsize=None)
 def dump(expr_text: Optional[str]) -> Optional[str]:
     if expr_text is None:
         return None
-    return ast.dump(ast.parse(expr_text, mode="eval").body)
+    return adump(ast.parse(expr_text, mode="eval").body)
 
 
 def check_ast_view(rec: Dict[str, Any], ex: Dict[str, Any], src: str) -> None:
@@ -182,8 +224,8 @@ def check_ast_view(rec: Dict[str, Any], ex: Dict[str, Any], src: str) -> None:
     got = {"posonlyargs": [x.arg for x in a.posonlyargs], "args": [x.arg for x in a.args],
            "vararg": [a.vararg.arg] if a.vararg else [], "kwonlyargs": [x.arg for x in a.kwonlyargs],
            "kwarg": [a.kwarg.arg] if a.kwarg else [],
-           "defaults": [ast.dump(d) for d in a.defaults],
-           "kw_defaults": [ast.dump(d) if d is not None else None for d in a.kw_defaults]}
+           "defaults": [adump(d) for d in a.defaults],
+           "kw_defaults": [adump(d) if d is not None else None for d in a.kw_defaults]}
     want = {"posonlyargs": [name(i) for i in spec["posonlyargs"]], "args": [name(i) for i in spec["args"]],
             "vararg": [name(i) for i in spec["vararg"]], "kwonlyargs": [name(i) for i in spec["kwonlyargs"]],
             "kwarg": [name(i) for i in spec["kwarg"]],
@@ -204,15 +246,15 @@ def read_back(text: str) -> Optional[Dict[str, Any]]:
     pos = list(a.posonlyargs) + list(a.args)
     dflt = [None] * (len(pos) - len(a.defaults)) + list(a.defaults)
     for x, d in zip(pos, dflt):
-        out.append([x.arg, "PO" if x in a.posonlyargs else "PK", ast.dump(d) if d is not None else None,
-                    ast.dump(x.annotation) if x.annotation else None])
+        out.append([x.arg, "PO" if x in a.posonlyargs else "PK", adump(d) if d is not None else None,
+                    adump(x.annotation) if x.annotation else None])
     if a.vararg:
-        out.append([a.vararg.arg, "VP", None, ast.dump(a.vararg.annotation) if a.vararg.annotation else None])
+        out.append([a.vararg.arg, "VP", None, adump(a.vararg.annotation) if a.vararg.annotation else None])
     for x, d in zip(a.kwonlyargs, a.kw_defaults):
-        out.append([x.arg, "KO", ast.dump(d) if d is not None else None, ast.dump(x.annotation) if x.annotation else None])
+        out.append([x.arg, "KO", adump(d) if d is not None else None, adump(x.annotation) if x.annotation else None])
     if a.kwarg:
-        out.append([a.kwarg.arg, "VK", None, ast.dump(a.kwarg.annotation) if a.kwarg.annotation else None])
-    return {"params": out, "ret": ast.dump(fn.returns) if fn.returns else None}  # type: ignore[attr-defined]
+        out.append([a.kwarg.arg, "VK", None, adump(a.kwarg.annotation) if a.kwarg.annotation else None])
+    return {"params": out, "ret": adump(fn.returns) if fn.returns else None}  # type: ignore[attr-defined]
 
 
 def expected_of(rec: Dict[str, Any], ex: Dict[str, Any]) -> Dict[str, Any]:
@@ -255,7 +297,29 @@ def kf_signature_xml(w: Dict[str, Any]) -> bool:
             and any(x in w["input"] for x in ('"x\\u00a0y"', '"x\\ufffey"')))
 
 
-MATCHERS = {"string-default-breaks-signature-xml": kf_signature_xml}
+def _diffs(w: Dict[str, Any]) -> List[Tuple[Any, Any]]:
+    exp, got = w["expected"], w["observed"].get("read_back") or {}
+    out = []
+    for e, g in zip(exp["params"], got.get("params") or []):
+        out += [(e[c], g[c]) for c in (2, 3) if e[c] != g[c]]
+    if exp["ret"] != got.get("ret"):
+        out.append((exp["ret"], got.get("ret")))
+    return out
+
+
+def kf_table_matcher(fid: str):  # type: ignore[no-untyped-def]
+    """every difference is one of the tabulated (shown -> displayed meanwhile) pairs of an OPEN finding, at least one of
+    them of this finding; names, kinds and order of the parameters are as written"""
+    def match(w: Dict[str, Any]) -> bool:
+        if not w.get("failed") or any(f not in ("DefaultsWhereWritten", "SameAnnotations", "SameReturn") for f in w["failed"]):
+            return False
+        allp = {(dump(sh), dump(bad)): k for k, t in KF_TABLE.items() for _, _, sh, bad in t}
+        d = _diffs(w)
+        return bool(d) and all((e, g) in allp for e, g in d) and any(allp[(e, g)] == fid for e, g in d)
+    return match
+
+
+MATCHERS = {"string-default-breaks-signature-xml": kf_signature_xml, **{fid: kf_table_matcher(fid) for fid in KF_TABLE}}
 
 
 # ----------------------------------------------------------------------------------- worker: build + judge
@@ -267,7 +331,7 @@ def work(span: Tuple[int, int, int]) -> Dict[str, Any]:
 
     cases = CASES[lo:hi]
     imp, lit, extra = LITERAL_CONTEXTS[(lo // max(1, hi - lo) + seed) % len(LITERAL_CONTEXTS)] if RICH else LITERAL_CONTEXTS[0]
-    lines = ["from typing import overload, List, Optional, Dict, Callable, Tuple", "import typing", imp]
+    lines = ["from typing import overload, List, Optional, Dict, Callable, Tuple", "import typing, re", "from typing import Literal as Lit", imp]
     H = len(lines)
     how = {"header": "\n".join(lines), "extra_modules": extra}
     exs = []
@@ -290,21 +354,36 @@ def work(span: Tuple[int, int, int]) -> Dict[str, Any]:
         """one overloaded function; every other one is preceded by an earlier plain definition of the same name
         (a fallback the overload set then replaces), the history `def g ... ; @overload def g ... ; def g`"""
         out_ = [f"def g{lo}_{gi}(value, *args, **kwargs): pass"] if gi % 2 else []
+        deco = "@overload" if gi % 3 == 0 else "@compat.overload"
         for k_ in grp:
-            out_ += ["@overload", write_def(f"g{lo}_{gi}", cases[k_], exs[k_], body="...")]
+            out_ += [deco, write_def(f"g{lo}_{gi}", cases[k_], exs[k_], body="...")]
         return out_ + [f"def g{lo}_{gi}(*args, **kwargs): pass"]
 
-    for gi, grp in enumerate(groups):
-        lines += group_lines(gi, grp)
-    msgs: List[Tuple[str, str]] = []
+    # a third of the groups stays in the module and uses `@overload`; the others live in a package p<lo> and name the
+    # decorator through the sibling module `compat` (`from . import compat` ; `@compat.overload`): in a_first, which is
+    # analysed BEFORE compat, and in z_last, which is analysed after it.
     modname = f"m{lo}"
+    pkg = f"p{lo}"
+    gmod = lambda gi: modname if gi % 3 == 0 else (f"{pkg}.a_first" if gi % 3 == 1 else f"{pkg}.z_last")
+    pkg_header = ["from typing import List, Optional, Dict, Callable, Tuple", "import typing, re", "from typing import Literal as Lit", imp, "from . import compat"]
+    side: Dict[str, List[str]] = {f"{pkg}.a_first": list(pkg_header), f"{pkg}.z_last": list(pkg_header)}
+    for gi, grp in enumerate(groups):
+        (lines if gi % 3 == 0 else side[gmod(gi)]).extend(group_lines(gi, grp))
+    msgs: List[Tuple[str, str]] = []
 
-    def build(src_lines: List[str]) -> Tuple[Any, Optional[str]]:
+    def package_modules(first: List[str], last: List[str]) -> List[List[Any]]:
+        """[name, parent, is_package, source] in the order they are added to the system"""
+        return [[pkg, None, True, ""], ["a_first", pkg, False, "\n".join(first) + "\n"],
+                ["compat", pkg, False, "from typing import overload\n"], ["z_last", pkg, False, "\n".join(last) + "\n"]]
+
+    def build(src_lines: List[str], pkgmods: Optional[List[List[Any]]] = None) -> Tuple[Any, Optional[str]]:
         system = model.System()
         system.msg = lambda section, msg, *a, **kw: msgs.append((section, msg))  # type: ignore[method-assign]
         builder = system.systemBuilder(system)
         for xn, xs in extra.items():
             builder.addModuleString(xs, modname=xn)
+        for mn_, par_, ispkg_, src_ in (pkgmods or []):
+            builder.addModuleString(src_, modname=mn_, parent_name=par_, is_package=ispkg_)
         builder.addModuleString("\n".join(src_lines) + "\n", modname=modname)
         try:
             builder.buildModules()
@@ -312,17 +391,25 @@ def work(span: Tuple[int, int, int]) -> Dict[str, Any]:
             return None, f"{type(e).__name__}: {e}"
         return system, None
 
-    whole, whole_err = build(lines)
+    whole, whole_err = build(lines, package_modules(side[f"{pkg}.a_first"], side[f"{pkg}.z_last"]))
     out: Dict[str, Any] = {"violations": [], "drift": [], "n": 0, "n_overloads": 0, "samples": [], "batch_aborted": int(whole is None)}
 
-    def lookup(name: str, own_lines: List[str]) -> Tuple[Any, Optional[str]]:
+    def alone_modules(where: str, own_lines: List[str]) -> List[List[Any]]:
+        return package_modules(pkg_header + (own_lines if where.endswith("a_first") else []),
+                               pkg_header + (own_lines if where.endswith("z_last") else []))
+
+    def lookup(name: str, own_lines: List[str], where: Optional[str] = None) -> Tuple[Any, Optional[str]]:
         """the Function object; when the batch build aborted, from a build of this definition alone"""
+        where = where or modname
         if whole is not None:
-            return whole.allobjects.get(f"{modname}.{name}"), None
-        alone, err = build(lines[:H] + own_lines)
+            return whole.allobjects.get(f"{where}.{name}"), None
+        if where == modname:
+            alone, err = build(lines[:H] + own_lines)
+        else:
+            alone, err = build(lines[:H], alone_modules(where, own_lines))
         if alone is None:
             return None, err
-        return alone.allobjects.get(f"{modname}.{name}"), None
+        return alone.allobjects.get(f"{where}.{name}"), None
 
     def aborted(rec: Dict[str, Any], origin: str, src: str, err: str) -> None:
         out["violations"].append({"invariant": "SignatureIsDisplayed", "failed": ["SignatureIsDisplayed"], "origin": origin, "input": src, **how,
@@ -370,17 +457,19 @@ def work(span: Tuple[int, int, int]) -> Dict[str, Any]:
             out["samples"].append({"source": src, "displayed": text})
     for gi, grp in enumerate(groups):
         own = group_lines(gi, grp)
-        fn, err = lookup(f"g{lo}_{gi}", own)
+        fn, err = lookup(f"g{lo}_{gi}", own, gmod(gi))
         if err is not None:
             continue                      # already reported for the plain definitions of the same layouts
         ovs = list(fn.overloads) if isinstance(fn, model.Function) else []
         page = [flatten_text(x) for x in format_overloads(fn)] if isinstance(fn, model.Function) else []
         page = [x for x in page if x.startswith("def ")]
         for j, k in enumerate(grp):
-            src = write_def(f"g{lo}_{gi}", cases[k], exs[k], deco="@overload\n", body="...")
+            src = write_def(f"g{lo}_{gi}", cases[k], exs[k], deco="@overload\n" if gi % 3 == 0 else "@compat.overload\n", body="...")
             text = flatten_text(format_signature(ovs[j])) if j < len(ovs) else "<missing overload>"
             out["n_overloads"] += 1
-            grp_src = {"group_src": "\n".join(own), "index": j}
+            grp_src: Dict[str, Any] = {"group_src": "\n".join(own), "index": j}
+            if gmod(gi) != modname:         # replay needs the package, in the order it was analysed
+                grp_src.update({"modules": alone_modules(gmod(gi), own), "target": f"{gmod(gi)}.g{lo}_{gi}"})
             if RICH:
                 grp_src["context_src"] = ctxs[k]
             judge(cases[k], exs[k], text, "overload", src, grp_src)
@@ -574,7 +663,9 @@ def replay(ctx: Ctx, path: str) -> int:
         b0.addModuleString(w["context_src"] + "\n", modname="ctx")
         b0.buildModules()
         flatten_text(format_signature(s0.allobjects["ctx.ctx"]))
-    b.addModuleString(pre + (w["group_src"] if is_ov and "group_src" in w else src) + "\n", modname="m")
+    for mn_, par_, ispkg_, src_ in (w.get("modules") or []):
+        b.addModuleString(src_, modname=mn_, parent_name=par_, is_package=ispkg_)
+    b.addModuleString(pre + ("" if w.get("modules") else (w["group_src"] if is_ov and "group_src" in w else src)) + "\n", modname="m")
     try:
         b.buildModules()
     except Exception as e:
@@ -582,7 +673,7 @@ def replay(ctx: Ctx, path: str) -> int:
         print(f"VIOLATION property=C14 replay={path}")
         ctx.cleanup()
         return 1
-    fn = system.allobjects[f"m.{name}"]
+    fn = system.allobjects[w.get("target") or f"m.{name}"]
     if w["origin"] == "overload-page":
         text = flatten_text(format_signature(fn.overloads[j]))
         page = [x for x in (flatten_text(y) for y in format_overloads(fn)) if x.startswith("def ")]
